@@ -1383,6 +1383,7 @@ typedef unsigned __int128 u128; typedef __int128 i128;
 def translate(text, opts=None):
     mod = parse_module(text)
     for k in (opts or {}).get('stubs', {}):
+        if (opts or {}).get('stubs_optional'): continue
         if ('@' + k) not in mod.funcs or not mod.funcs['@' + k].defined:
             raise Exception('stub target %s is not a function defined in the module (inlined away or renamed)' % k)
     em = Emitter(mod, opts)
